@@ -27,10 +27,15 @@ S7 == << <<<<1, 0>>>>, <<<<1, 2>>>> >>
 St8 == << <<<<1, 1>>>>, <<<<1, -1>>>>, <<<<1, 2>>>> >>
 \* two track fragments of the same track inside one moof
 St9 == << <<<<1, 2>>, <<1, 1>>>>, <<<<1, 1>>>> >>
-AllStructures == {S1, S2, S3, S4, S5, S6, S7, St8, St9}
-ExtraStructures == {St8, St9}
-QuickStructures == {S2, S5, S7}
-MixStructures == {S2, S3, S5}
+\* runs of unequal length whose total is a multiple of the number of fragments, and the same
+\* samples distributed the other way round (two files with the same track and sample ids)
+St10 == << <<<<1, 3>>>>, <<<<1, 1>>>> >>
+St11 == << <<<<1, 1>>>>, <<<<1, 3>>>> >>
+St12 == << <<<<1, 4>>>>, <<<<1, 4>>>>, <<<<1, 1>>>> >>
+AllStructures == {S1, S2, S3, S4, S5, S6, S7, St8, St9, St10, St11, St12}
+ExtraStructures == {St8, St9, St12}
+QuickStructures == {S2, S5, S7, St10, St11}
+MixStructures == {S2, S3, S5, St10, St12}
 TrexBoth == {<<>>, <<7>>}
 TwoTrackStructures == {S4, S5, S6}
 
@@ -77,5 +82,5 @@ Spec == Init /\ [][Next]_vars
 
 Emit == out.done => PrintT("CASE " \o ToJson([file |-> out.file, init |-> out.init, delivery |-> delivery,
                                               base |-> base, durMode |-> durMode, ctsMode |-> ctsMode,
-                                              tfdtV |-> tfdtV, nfrag |-> Len(st), ntracks |-> NTracks, mdatFirst |-> mdatFirst]))
+                                              tfdtV |-> tfdtV, nfrag |-> Len(st), ntracks |-> NTracks, mdatFirst |-> mdatFirst, st |-> st]))
 =============================================================================
